@@ -50,7 +50,7 @@ def correspondence(ctx):
             if i % 40 == 0:
                 m = bench.mapping(2 * L + 2, rng)
             objs = B.real_cons(bench, cons, m)
-            inv_of = {id(v): r for r, (_, v) in enumerate(m)}
+            inv_of = B.Inv(m)
             model = ans.split(" ")[0]
             try:
                 r = bench.rclass(constraints=objs)
